@@ -10,7 +10,7 @@
     Graphs: node ids pairwise distinct ([NoDup (node_ids g)], guaranteed by networkx); adjacency is symmetric by
     construction ([LGraph.adj]). *)
 From Coq Require Import List NArith ZArith Bool Arith Permutation Sorted.
-From SK Require Import lib.LGraph model.C12_Model model.C12_Trace model.C12_Check model.C12_CheckMtg model.C12_State proof.C12_Search proof.C12_Proof proof.C12_Prune proof.C12_Enum proof.C12_Sorted proof.C12_Component proof.C12_Mol proof.C12_State proof.C12_Trace proof.C12_LastSize proof.C12_StateRaw proof.C12_Check proof.C12_MtgRaw proof.C12_CheckMtg proof.C12_FacadeRaw.
+From SK Require Import lib.LGraph model.C12_Model model.C12_Trace model.C12_Check model.C12_CheckMtg model.C12_State proof.C12_Search proof.C12_Proof proof.C12_Prune proof.C12_Enum proof.C12_Sorted proof.C12_Component proof.C12_Mol proof.C12_State proof.C12_Trace proof.C12_LastSize proof.C12_StateRaw proof.C12_Check proof.C12_MtgRaw proof.C12_CheckMtg proof.C12_FacadeRaw proof.C12_ComponentRaw.
 Import ListNotations.
 
 (** ** 0. the specification: a common induced sub-graph mapping, written out.
@@ -803,3 +803,22 @@ Theorem C12_facade_valid_raw :
     (mcs = false -> forall m, raw_valid cfg ga gb m -> 1 <= length m -> exists m', In m' l12 /\ Permutation m m').
 Proof. exact history_rc_valid_raw. Qed.
 Print Assumptions C12_facade_valid_raw.
+
+(** ** 27. component-wise mode on the caller's graphs: find_rc_mapping(rc1, rc2, side, mcs, component=True) after ANY history
+    stores exactly one mapping, reported G1 -> G2 (flag true, last_size = its size), that is valid ([raw_valid]) for the two sides
+    the facade selects -- injective and bond-preserving also ACROSS components -- and whose inverse is valid for the exchanged
+    sides.  [raw_wfe]: every bond joins two atoms of the graph (guaranteed by networkx). *)
+Theorem C12_component_valid_raw :
+  forall (a : ctor_args) (cfg : config) (st : mstate) (ops : list mop) (x : rc_input) (sd : side) (mcs : bool)
+         (ga gb : rgraph) (rds : list mop),
+  mk_config a = Some cfg -> pick_sides x sd = Some (ga, gb) ->
+  NoDup (node_ids ga) -> NoDup (node_ids gb) ->
+  (forall u v e, In (u, v, e) (gedges ga) -> In u (node_ids ga) /\ In v (node_ids ga)) ->
+  (forall u v e, In (u, v, e) (gedges gb) -> In u (node_ids gb) /\ In v (node_ids gb)) ->
+  forallb is_read rds = true ->
+  let stf := m_run cfg st (ops ++ MRc x sd mcs true :: rds) in
+  exists m, m_get stf D12 = Some [m] /\ m_get stf D21 = Some [invert_mapping m] /\ m_get stf DP2H = Some [m] /\
+    s_flag stf = Some true /\ s_last stf = length m /\
+    raw_valid cfg ga gb m /\ raw_valid cfg gb ga (invert_mapping m).
+Proof. exact history_component_valid_raw. Qed.
+Print Assumptions C12_component_valid_raw.
